@@ -1015,6 +1015,21 @@ def c_csr_pinned_at_limit():
             out.append(res(f"ens.bank-pinned-at-the-edge[{tag}]:refused-or-published-inside-the-csr-region", "ensures", OK if inside else VIOLATED, 0, "executed (real SoC, real exporter)", replayed=True,
                            witness=dict(request=f"csr.add('aaa', n={n})", published_base=hex(base) if base is not None else None, csr_region=f"{reg.origin:#x}+{reg.size:#x}"),
                            info="" if inside else "the bank is published beyond the csr bus region: neither the bus decoder nor a bank select can match there"))
+    # a larger CSR address space (csr_address_width = 15: locations up to 63 with the default paging): every address line a published bank needs exists on every CSR
+    # master port and on the bank array's bus - a bank published above the reach of the CSR bus is answered by the bank 2**k pages below it
+    for aw in (14, 15, 16):
+        soc = SoCCore(P(), 100e6, cpu_type=None, integrated_sram_size=0x100, with_uart=False, with_timer=False, with_ctrl=False, ident="", ident_version=False, csr_address_width=aw); elab.restore_stderr()
+        soc.aaa = PinnedFirst(); n = soc.csr.n_locs - 1
+        try:
+            soc.csr.add("aaa", n=n); soc.bus.add_master("tb", wishbone.Interface(data_width=32, address_width=32, addressing="word")); soc.finalize(); elab.restore_stderr()
+        except SoCError:
+            elab.restore_stderr(); out.append(res(f"ens.csr-bus-reaches-every-published-bank[csr_address_width={aw}]", "ensures", VIOLATED, 0, "executed", info=f"location {n} of {soc.csr.n_locs} refused")); continue
+        js = json.loads(export.get_csr_json(soc.csr_regions, soc.constants, soc.mem_regions)); reg = soc.bus.regions["csr"]
+        need = (js["csr_bases"]["aaa"] - reg.origin) // 4                      # word offset of the highest published bank inside the csr region
+        widths = {f"master {k}": len(mst.adr) for k, mst in soc.csr.masters.items()}
+        ok = all((1 << w) > need for w in widths.values())
+        out.append(res(f"ens.csr-bus-reaches-every-published-bank[csr_address_width={aw}]", "ensures", OK if ok else VIOLATED, 0, "executed (real SoC, real exporter)", replayed=True,
+                       witness=dict(published_bank_word_offset=hex(need), csr_master_address_widths=widths), info="" if ok else "a CSR master port has fewer address lines than the published location needs"))
     out.append(res("cover.both-outcomes-seen", "cover", OK if seen["accepted"] and seen["refused"] else VACUOUS, 0, "executed", **seen))
     return dict(results=out, functions=["litex.soc.integration.soc.SoCCSRHandler / SoCLocHandler.add (boundary locations) -> export.get_csr_json"], samples=[dict(config="bank pinned at n_locs-1, n_locs, n_locs+1")])
 
